@@ -1181,7 +1181,11 @@ class C12(SimCheck):
             # exceptions that escape from telemetry callbacks in particular: the updates that follow must still
             # deliver one telemetry per node, each with its own position
             scn["profile"]["pTelemetry"] = 0.7
+            scn["profile"]["pBadDst"] = 0.5
+            scn["profile"]["w"] = dict(scn["profile"]["w"], send=3)
             scn["escapeAt"] = 1
+            if scn["drive"]["mode"] == "steps":
+                scn["drive"]["n"] = 400
         return scn
 
     def obs(self, case, res):
